@@ -2838,6 +2838,13 @@ fn eval_built_in_call(
             }
         }
         BuiltInFunctionKind::PreludeReadLine => {
+            if env.enforce_sandbox {
+                return Err((
+                    restore_values_for_call(receiver_value, arg_values),
+                    EvalError::ForbiddenInSandbox(receiver_pos.clone()),
+                ));
+            }
+
             check_arity(
                 &SymbolName {
                     text: format!("{kind}"),
